@@ -224,7 +224,7 @@ termination_by structural fuel _ _ => fuel
 /-- the file loop of `NewFirmwareVolume`: one step per iteration -/
 def filesC (h : HooksG) (inner : Inner) (ic : InnerCost) (nc : NvarCost) : Nat → Bytes → Nat → Nat → Nat → St → CostM (List File × Nat × St)
   | fuel, data, offset, lh, length, st =>
-    if offset < lh then
+    if offset ≤ lh then
       match fuel with
       | 0 => liftC outOfFuel
       | fuel+1 => do
